@@ -428,6 +428,44 @@ def preRunC (c : CDS) (lib : Lib) (r : Req) : CDS × Lib × Except Fail Matrix :
   let out := preRunBodyC c1 lib r
   (if enabled then out.1.setIntNorm false else out.1, out.2.1, out.2.2)
 
+/-! ### The `samples` setting of CustomDOE in its documented forms
+
+`CustomDOE._generate_unit_samples` accepts "a 2D-array, a dictionary of 2D-arrays or a list of
+dictionaries of 1D-arrays" (or a file, read into a 2-D array).  A `Mapping` goes through
+`design_space.convert_dict_to_array(samples)` (concatenation along the last axis, i.e. row by row), a
+sequence of mappings through `vstack([design_space.convert_dict_to_array(sample) for sample in samples])`.
+`convert_dict_to_array` (C02 `DS.dictToArray`) looks every variable of the design space up **by name, in
+the design-space order**: the order in which the user wrote the keys plays no role. -/
+
+inductive CustomSamples where
+  /-- a 2-D array, or what `read_file(doe_file)` returns -/
+  | array (m : Matrix)
+  /-- a dictionary `name ↦ 2-D array` (one row per sample), in the key order the user wrote -/
+  | dict (cols : List (String × Matrix))
+  /-- a list of dictionaries `name ↦ 1-D array`, one per sample, each in its own key order -/
+  | dicts (rows : List (List (String × List Rat)))
+
+/-- Sample `i` of a dictionary of 2-D arrays, as a dictionary of 1-D arrays. -/
+def dictRow (cols : List (String × Matrix)) (i : Nat) : List (String × List Rat) :=
+  cols.map (fun c => (c.1, c.2.getD i []))
+
+/-- Number of rows of the concatenation along the last axis (NumPy requires all the arrays to have the
+    same number of rows): that of the array of the first variable of the design space. -/
+def dictRowCount (d : DS) (cols : List (String × Matrix)) : Nat :=
+  match d.names with
+  | [] => 0
+  | n :: _ => (((cols.find? (·.1 == n)).map (·.2)).getD []).length
+
+/-- The 2-D array `CustomDOE` works with. -/
+def CustomSamples.toMatrix (d : DS) : CustomSamples → Matrix
+  | .array m => m
+  | .dict cols => (List.range (dictRowCount d cols)).map (fun i => d.dictToArray (dictRow cols i))
+  | .dicts rows => rows.map d.dictToArray
+
+/-- The CustomDOE request for given `samples` on the design space `d` (no seed, no unit hypercube). -/
+def customReq (d : DS) (cs : CustomSamples) : Req :=
+  { useUnitHypercube := false, custom := true, sampler := fun _ => some (cs.toMatrix d) }
+
 /-- What a user does with one design-space object and one library object. -/
 inductive SOp where
   /-- a public edit of the design space -/
@@ -438,6 +476,9 @@ inductive SOp where
   | doe (exec : Bool) (r : Req)
   /-- a new library object (`DOELibraryFactory().create(…)`) -/
   | newLib
+  /-- `CustomDOE` with its `samples` setting in one of the documented forms (converted with the
+      variables of the design space as they are at the time of the call) -/
+  | custom (exec : Bool) (cs : CustomSamples)
 
 instance decEqResult : DecidableEq (Except Fail Matrix)
   | .ok a, .ok b => if h : a = b then isTrue (by rw [h]) else isFalse (fun e => by cases e; exact h rfl)
@@ -456,13 +497,17 @@ structure Session where
   cds : CDS
   lib : Lib := {}
 
+/-- A DOE on the objects of the session. -/
+def Session.doe (s : Session) (exec : Bool) (r : Req) : Session × SOut :=
+  let out := if exec then preRunC s.cds s.lib r else computeDoeC s.cds s.lib r
+  ({ cds := out.1, lib := out.2.1 }, .doe out.2.2)
+
 def Session.step (tol : Rat) (s : Session) : SOp → Session × SOut
   | .edit op => ({ s with cds := s.cds.edit tol op }, .none)
   | .query u => ({ s with cds := s.cds.ensure }, .vec (s.cds.ensure.data.unnormalize u))
-  | .doe exec r =>
-    let out := if exec then preRunC s.cds s.lib r else computeDoeC s.cds s.lib r
-    ({ cds := out.1, lib := out.2.1 }, .doe out.2.2)
+  | .doe exec r => s.doe exec r
   | .newLib => ({ s with lib := {} }, .none)
+  | .custom exec cs => s.doe exec (customReq s.cds.ds cs)
 
 def Session.run (tol : Rat) (s : Session) : List SOp → Session × List SOut
   | [] => (s, [])
@@ -476,13 +521,16 @@ structure Spec where
   ds : DS
   lib : Lib := {}
 
+def Spec.doe (s : Spec) (exec : Bool) (r : Req) : Spec × SOut :=
+  let o := if exec then preRun s.ds s.lib r else computeDoe s.ds s.lib r
+  ({ ds := o.ds, lib := o.lib }, .doe o.result)
+
 def Spec.step (tol : Rat) (s : Spec) : SOp → Spec × SOut
   | .edit op => ({ s with ds := s.ds.apply tol op }, .none)
   | .query u => (s, .vec (s.ds.unnormalizeVect true u))
-  | .doe exec r =>
-    let o := if exec then preRun s.ds s.lib r else computeDoe s.ds s.lib r
-    ({ ds := o.ds, lib := o.lib }, .doe o.result)
+  | .doe exec r => s.doe exec r
   | .newLib => ({ s with lib := {} }, .none)
+  | .custom exec cs => s.doe exec (customReq s.ds cs)
 
 def Spec.run (tol : Rat) (s : Spec) : List SOp → Spec × List SOut
   | [] => (s, [])
@@ -490,5 +538,94 @@ def Spec.run (tol : Rat) (s : Spec) : List SOp → Spec × List SOut
     let (s1, o) := s.step tol op
     let (s2, os) := Spec.run tol s1 ops
     (s2, o :: os)
+
+/-! ## 7. The process: what outlives a call besides the user's objects
+
+Between the library object and the third-party generators sits a layer GEMSEO owns: the algorithm
+classes (`BaseDOE` multitons, one instance per class and per process), `OpenTURNS._generate_unit_samples`
+(`openturns.RandomGenerator.SetSeed(seed)` — a **process-wide** generator — then
+`doe_algo.generate_samples(n, dimension)`), `BaseOTLowDiscrepancySequence.generate_samples`
+(`self._ALGO_CLASS(dimension).generate(n_samples)`: a **new** sequence object per call, whose cursor
+starts at 0), `SciPyDOE` (`Engine(dimension, seed=seed).random(n)`: a new engine per call), `PyDOELibrary`
+(`RandomState(seed)` per call).  The third-party *objects* are parameters (`ThirdParty`); what persists in
+the process is `Proc`.  `Props/C14` proves that `Proc` cannot be observed: the unit samples of a call are a
+function of (algorithm, settings, dimension, number of samples, seed) whatever was sampled before in the
+process, by any algorithm. -/
+
+/-- State of `openturns.RandomGenerator`: the last seed set and the number of draws since. -/
+abbrev OtRng := Int × Nat
+
+/-- How the wrapper of an algorithm obtains its points. -/
+inductive Source where
+  /-- `self._ALGO_CLASS(dimension).generate(n_samples)`: OT_HALTON, OT_SOBOL, OT_FAURE, OT_HASELGROVE,
+      OT_REVERSE_HALTON -/
+  | otSequence
+  /-- an OpenTURNS experiment drawing from the process-wide `RandomGenerator` (OT_MONTE_CARLO, OT_RANDOM,
+      OT_LHS, OT_LHSC, OT_OPT_LHS, OT_SOBOL_INDICES) -/
+  | otGlobal
+  /-- a seeded third-party object created for the call (SciPy engines, pyDOE's `RandomState`) -/
+  | engine
+  /-- a design that is a function of the settings (full-factorial, diagonal, stratified, OAT, Morris, …) -/
+  | closedForm
+  deriving DecidableEq, Repr
+
+/-- The third-party libraries (parameters of the model). -/
+structure ThirdParty where
+  /-- `sequence cls dim i`: point `i` of the low-discrepancy sequence of class `cls` in dimension `dim`. -/
+  sequence : Nat → Nat → Nat → List Rat
+  /-- `experiment algo dim n rng`: the design and the state in which the process-wide generator is left. -/
+  experiment : Nat → Nat → Nat → OtRng → Matrix × OtRng
+  /-- `seeded algo dim n seed`: what a generator object created with `seed` returns for `n` points. -/
+  seeded : Nat → Nat → Nat → Int → Matrix
+  /-- `design algo dim n`. -/
+  design : Nat → Nat → Nat → Matrix
+
+/-- An OpenTURNS sequence *object*: `generate(n)` returns the next `n` points and moves the cursor. -/
+structure SeqObj where
+  cls : Nat
+  dim : Nat
+  pos : Nat := 0
+
+def SeqObj.generate (w : ThirdParty) (o : SeqObj) (n : Nat) : SeqObj × Matrix :=
+  ({ o with pos := o.pos + n }, (List.range n).map (fun i => w.sequence o.cls o.dim (o.pos + i)))
+
+/-- What the process keeps between two calls (the algorithm multitons have no attribute). -/
+structure Proc where
+  otRng : OtRng := (0, 0)
+  deriving DecidableEq, Repr
+
+/-- One generation of unit samples: algorithm (with its settings other than the seed), dimension, number
+    of samples. -/
+structure PCall where
+  source : Source
+  algo : Nat
+  dim : Nat
+  n : Nat
+  deriving DecidableEq, Repr
+
+/-- `_generate_unit_samples` below the `Seeder`: `seed` is the effective seed. -/
+def Proc.call (w : ThirdParty) (p : Proc) (c : PCall) (seed : Int) : Proc × Matrix :=
+  match c.source with
+  | .otSequence =>
+    -- SetSeed(seed); self._ALGO_CLASS(dimension).generate(n_samples)
+    ({ otRng := (seed, 0) }, (SeqObj.generate w { cls := c.algo, dim := c.dim } c.n).2)
+  | .otGlobal =>
+    -- SetSeed(seed); the experiment reads the process-wide generator
+    let out := w.experiment c.algo c.dim c.n (seed, 0)
+    ({ otRng := out.2 }, out.1)
+  | .engine => (p, w.seeded c.algo c.dim c.n seed)
+  | .closedForm => (p, w.design c.algo c.dim c.n)
+
+/-- A history of generations in one process. -/
+def Proc.run (w : ThirdParty) (p : Proc) : List (PCall × Int) → Proc × List Matrix
+  | [] => (p, [])
+  | (c, k) :: rest =>
+    let (p1, m) := p.call w c k
+    let (p2, ms) := Proc.run w p1 rest
+    (p2, m :: ms)
+
+/-- The `sampler` of a request (`Req.sampler`: effective seed ↦ unit samples) in a process state. -/
+def procSampler (w : ThirdParty) (p : Proc) (c : PCall) : Int → Option Matrix :=
+  fun eff => some (p.call w c eff).2
 
 end GV.C14
